@@ -247,8 +247,8 @@ Invalidate(q, k) ==
 
 LeaseNext == \/ \E b \in Brokers, r \in Res : AcqSession(b, r) \/ AcqTxn(b, r) \/ AcqReacq(b, r) \/ AcqCommit(b, r) \/ AcqFail(b, r)
                                               \/ RelLocal(b, r) \/ RelDelete(b, r)
-             \/ \E l \in alive : ServerExpire(l)
-             \/ \E b \in Brokers : SessDone(b) \/ ReleaseAll(b) \/ Crash(b) \/ \E l \in mon[b] : Monitor(b, l)
+             \/ \E l \in 1..MaxLeases : ServerExpire(l)
+             \/ \E b \in Brokers : SessDone(b) \/ ReleaseAll(b) \/ Crash(b) \/ \E l \in 1..MaxLeases : Monitor(b, l)
 RouterNext == \/ \E k \in Res : AdminDel(k) \/ \E v \in Vals : AdminPut(k, v)
               \/ \E q \in Routers : Load(q) \/ WatchStart(q) \/ Deliver(q) \/ WatchClose(q) \/ \E k \in Res : Invalidate(q, k)
 Next == LeaseNext \/ RouterNext
